@@ -24,6 +24,7 @@ type vJSON struct {
 	OF []string `json:"of,omitempty"`
 	OV []*V     `json:"ov,omitempty"`
 	P  *V       `json:"p,omitempty"`
+	Fn string `json:"fn,omitempty"` // function value: its registry tag
 	// human-readable rendition, ignored when reading
 	Txt string `json:"txt,omitempty"`
 }
@@ -42,8 +43,14 @@ func (v *V) MarshalJSON() ([]byte, error) {
 		j.Tz, j.Tn = &off, name
 		j.Txt = v.Tm.UTC().String()
 	}
+	if v.Fn != nil {
+		j.Fn = v.Fn.Tag
+	}
 	return json.Marshal(j)
 }
+
+// SigRegistry resolves function values that travel through case files by tag.
+var SigRegistry = map[string]*Sig{}
 
 func (v *V) UnmarshalJSON(b []byte) error {
 	var j vJSON
@@ -51,6 +58,9 @@ func (v *V) UnmarshalJSON(b []byte) error {
 		return err
 	}
 	*v = V{T: j.T, S: j.S, B: j.B, L: j.L, MK: j.MK, MV: j.MV, OF: j.OF, OV: j.OV, P: j.P}
+	if j.Fn != "" {
+		v.Fn = SigRegistry[j.Fn]
+	}
 	if j.NB != nil {
 		v.N = math.Float64frombits(*j.NB)
 	}
